@@ -83,15 +83,17 @@ def dur_ok(task):
     return And(*cs)
 
 
-def task_timing(task, horizon_var, horizon_value=None):
-    """C01: what holds of a *scheduled* task"""
+def task_timing(task, horizon_var, horizon_value=None, deadline=None):
+    """C01: what holds of a *scheduled* task.  deadline: what the *declaration* says about the due date (True /
+    False) when the scenario knows it -- a due date declared without the flag is a deadline (documented default);
+    None: read the flag from the task object"""
     s, e = task._start, task._end
     cs = [s >= 0, e <= horizon_var, e - s == task_duration(task), dur_ok(task)]
     if horizon_value is not None:
         cs.append(horizon_var <= T(horizon_value))
     if task.release_date is not None:
         cs.append(s >= T(task.release_date))
-    if task.due_date is not None and _truth(task.due_date_is_deadline):
+    if task.due_date is not None and (_truth(task.due_date_is_deadline) if deadline is None else deadline):
         cs.append(e <= T(task.due_date))
     return And(*cs)
 
